@@ -14,6 +14,8 @@
 (*         in-place with destination before / after), &= |= ^= on a        *)
 (*         uniquely owned and on a shared BooleanBuffer                    *)
 (*   set   bit_mask::set_bits with the destination before / after          *)
+(*   bnot  buffer_unary_not at offsets that are not a multiple of 64 (known *)
+(*         finding; the `un` events carry it for the other offsets)        *)
 (*   quat  bitwise_quaternary_op_helper                                    *)
 (*   null  NullBuffer union / union_many / contains / expand               *)
 (*   ctor  construction from bits / closures / iterators                   *)
@@ -34,8 +36,8 @@ VARIABLES l,        \* index of the next event
 
 J(ok, what) == Judge(ok, l, what)
 
-(* a packed result of at least n bits whose first n bits are `want`; the    *)
-(* driver logs exactly the first n bits (or fewer if the buffer is short)    *)
+(* packed results (Buffer) are logged as their first n bits, or fewer if the *)
+(* buffer is too short -- the length comparison then fails                   *)
 ---------------------------------------------------------------------------
 UnOK(ev) ==
   LET a == ev.a n == Len(ev.a) IN
@@ -79,7 +81,7 @@ BNotShifted(ev) == Sub(Not(ev.d0 \o Zeros(128)), ev.off - (ev.off % 64), ev.n)
 KF_BNot(ev) ==
   IF ev.off % 64 # 0 /\ ev.bnot = BNotShifted(ev) THEN "C19-buffer-unary-not-offset" ELSE ""
 
-UnView(ev) == <<ev.a, ev.f1, ev.count, ev.cnt2, ev.ucnt, ev.nulls, ev.ht, ev.hf, ev.iter, ev.rev, ev.it, ev.idx,
+UnView(ev) == <<ev.a, ev.f1, ev.hb, ev.bnot, ev.count, ev.cnt2, ev.ucnt, ev.nulls, ev.ht, ev.hf, ev.iter, ev.rev, ev.it, ev.idx,
                 ev.idx32, ev.runs, ev.cl, ev.rl, ev.chunks, ev.rem, ev.not, ev.hnot, ev.un, ev.hun, ev.fb,
                 ev.sliced, ev.bsl, ev.so, ev.sn, ev.sl, ev.fq, ev.eq1, ev.eq2,
                 Sub(ev.d1, ev.off, ev.n)>>
@@ -100,8 +102,9 @@ BinOK(ev) ==
   /\ J(ev.d1 = ApplyBin(ev.d0, ev.lo, b, n, ev.f2), "apply_bitwise_binary_op result")
   /\ J(Outside(ev.d1, ev.d0, ev.lo, n), "apply_bitwise_binary_op frame")
   /\ J(ev.asu = Bin(AsgTable(ev), a, b), "op-assign (unique)")
-  /\ J(Sub(ev.au0, ev.lo, n) = a /\ Sub(ev.au1, ev.lo, n) = ev.asu, "op-assign (unique): buffers")
-  /\ J(Outside(ev.au1, ev.au0, ev.lo, n), "op-assign (unique) frame")
+  (* inpl: the result still lives in the operand's own buffer (the in-place path was taken) *)
+  /\ J(ev.inpl => Sub(ev.au0, ev.lo, n) = a /\ Sub(ev.au1, ev.lo, n) = ev.asu, "op-assign (unique): buffers")
+  /\ J(ev.inpl => Outside(ev.au1, ev.au0, ev.lo, n), "op-assign (unique) frame")
   /\ J(ev.ass = Bin(AsgTable(ev), a, b), "op-assign (shared)")
   /\ J(ev.aso = a, "op-assign (shared): the other handle changed")
 
@@ -164,7 +167,7 @@ NullView(ev) == <<ev.a, ev.b, ev.c, ev.pa, ev.pb, ev.pc, ev.u_p, ev.u, ev.u_nc, 
 CtorOK(ev) ==
   LET n == Len(ev.a) IN
   /\ J(n = ev.n, "ctor: input")
-  /\ J(\A k \in 1..Len(ev.outs) : ev.outs[k] = ev.a, <<"constructor", ev.names>>)
+  /\ J(\A k \in 1..Len(ev.outs) : ev.outs[k] = ev.a, "constructor")
   /\ J(ev.set = Ones(n) /\ ev.nv = Ones(n), "new_set / new_valid")
   /\ J(ev.unset = Zeros(n) /\ ev.nn = Zeros(n), "new_unset / new_null")
   /\ J(ev.nv_nc = 0 /\ ev.nn_nc = n, "new_valid / new_null null_count")
@@ -182,7 +185,7 @@ BCallOK(ev) ==
 ---------------------------------------------------------------------------
 TwoRuns(ev, view(_)) ==
   IF ev.run = 1 THEN prev' = ev
-  ELSE /\ J(prev.op = ev.op /\ view(prev) = view(ev), <<"runs with different surroundings differ", ev.op>>)
+  ELSE /\ J(prev.op = ev.op /\ view(prev) = view(ev), <<"runs differ", ev.op>>)
        /\ prev' = prev
 
 Init == l = 1 /\ prev = [op |-> "none"] /\ bits = <<>>
@@ -192,8 +195,11 @@ Next ==
   /\ l' = l + 1
   /\ LET ev == Rec[l] IN
      CASE ev.op = "un"   -> /\ UnOK(ev)
-                            /\ JudgeKF(ev.bnot = BNotWant(ev), l, "buffer_unary_not", KF_BNot(ev))
+                            /\ (ev.hb => JudgeKF(ev.bnot = BNotWant(ev), l, "buffer_unary_not", KF_BNot(ev)))
                             /\ TwoRuns(ev, UnView) /\ UNCHANGED bits
+       [] ev.op = "bnot" -> /\ J(Sub(ev.d0, ev.off, ev.n) = ev.a, "bnot: source holds the input")
+                            /\ JudgeKF(ev.bnot = BNotWant(ev), l, "buffer_unary_not", KF_BNot(ev))
+                            /\ UNCHANGED <<prev, bits>>
        [] ev.op = "bin"  -> BinOK(ev) /\ TwoRuns(ev, BinView) /\ UNCHANGED bits
        [] ev.op = "set"  -> SetOK(ev) /\ TwoRuns(ev, SetView) /\ UNCHANGED bits
        [] ev.op = "quat" -> QuatOK(ev) /\ TwoRuns(ev, QuatView) /\ UNCHANGED bits
